@@ -26,6 +26,7 @@ ASSUMPTIONS = [
 GATES = {
     "S2_observed": 1, "S3_observed": 1, "S4_observed": 1, "coarse_invalid_pixel": 1, "size_not_divisible": 1, "step_after_multiscale": 1,
     "multiband": 1, "masks": 1, "fine_pixels_judged": 5000, "validation_before_multiscale": 1, "right_side_ranges_judged": 1, "window_size_1": 1,
+    "level_images_compared_with_the_exchanged_pair": 20, "levels_with_different_left_right_masks": 2,
 }
 INVALID = 0b1111000011
 
@@ -131,7 +132,7 @@ def run_case(case, ctx):
     pipes.check(m, pipe, left, right)
     cfg = pipes.checked_cfg(m, pipe)
     lsnap, rsnap = gen.deep_copy_ds(left), gen.deep_copy_ds(right)
-    passes, coarse, after_ms, coarse_r = [], [], [], []
+    passes, coarse, after_ms, coarse_r, levels = [], [], [], [], []
     ms_seen = {"n": 0}
 
     def before(ev, mm):
@@ -143,6 +144,8 @@ def run_case(case, ctx):
     def after(ev, mm):
         kind = ev["kind"]
         if kind == "matching_cost" and ev["phase"] == "after":
+            levels.append({s_: {v: np.array(img[v].data).copy() for v in ("im", "msk") if v in img}
+                           for s_, img in (("left", mm.left_img), ("right", mm.right_img))})
             passes.append({"shape": (int(mm.left_img.sizes["row"]), int(mm.left_img.sizes["col"])),
                            "dmin": np.array(mm.disp_min, dtype=np.float64).copy(), "dmax": np.array(mm.disp_max, dtype=np.float64).copy(),
                            "disp": mm.left_cv.coords["disp"].data.copy(), "scale": mm.current_scale,
@@ -172,6 +175,26 @@ def run_case(case, ctx):
     if got_shapes != exp_shapes:
         ctx.violation("image-size-per-scale", f"passes at {got_shapes}, expected {exp_shapes}", case, desc=desc)
         return
+    # each image's levels depend on that image alone: the levels the steps worked on as "right" are the levels the
+    # exchanged pair gives as "left" (and conversely)
+    try:
+        from pandora.img_tools import prepare_pyramid
+        xl, xr_ = prepare_pyramid(gen.deep_copy_ds(rsnap), gen.deep_copy_ds(lsnap), S, f)
+    except ImportError:
+        xl = None
+    if xl is not None and len(xl) == S:
+        for k in range(S - 1):  # the last pass works on the input datasets themselves
+            for side, other in (("right", xl[k]), ("left", xr_[k])):
+                for v in ("im", "msk"):
+                    got_v = levels[k][side].get(v)
+                    exp_v = other[v].data if v in other else None
+                    ctx.gate("level_images_compared_with_the_exchanged_pair")
+                    if (got_v is None) != (exp_v is None) or (got_v is not None and not gen.same(got_v, exp_v)):
+                        ctx.violation("level-image-depends-on-the-other-image",
+                                      f"pass {k}: the {side} level {v} differs from the level the exchanged pair gives "
+                                      f"({'missing' if got_v is None or exp_v is None else gen.first_diffs(got_v, exp_v, 3)})", case,
+                                      situation=f"{side}-{v}", desc=desc)
+        ctx.gate("levels_with_different_left_right_masks", int(lmk != rmk))
     ctx.gate("size_not_divisible", int(rows % f != 0 or cols % f != 0))
     ctx.gate("window_size_1", int(w == 1))
     ctx.gate("multiband", int(nb > 1))
